@@ -19,6 +19,10 @@ pub fn units(tier: &str, _seed: u64) -> Vec<String> {
         "U:ACS:EAMBIENTE;P:EAMBIENTE;U:NEPB:EAMBIENTE;U:ACS:ELECTRICIDAD",
         // cogeneration fed by two fuels
         "U:ILU:ELECTRICIDAD;P:EL_COGEN;U:COGEN:GASNATURAL;U:COGEN:BIOMASA",
+        // auxiliary electricity of single-service systems: EPB electricity use of that service, also when it is
+        // the building's only electricity
+        "4/U:CAL:GASNATURAL;4/X",
+        "1/U:ACS:ELECTRICIDAD;1/X;P:EL_INSITU;2/U:CAL:GASNATURAL;2/X",
     ];
     let mut v = vec![];
     for s in shapes {
@@ -125,6 +129,23 @@ fn reference(cr: &str, lines: &[LineT], n: usize, fp: &Factors, extra: &[(String
                 match use_srv.iter_mut().find(|x| x.0 == srv) {
                     Some(x) => (0..n).for_each(|t| x.1[t] = x.1[t] + vals[t]),
                     None => use_srv.push((srv.to_string(), vals.clone())),
+                }
+            }
+            ('X', _, _) if cr == "ELECTRICIDAD" => {
+                // auxiliary electricity is EPB use of the service its system serves (single-service systems only)
+                let mut srvs: Vec<&str> = vec![];
+                for o in lines.iter().filter(|o| o.kind == 'U' && o.id == l.id && o.a != "NEPB" && o.a != "COGEN") {
+                    if !srvs.contains(&o.a.as_str()) {
+                        srvs.push(o.a.as_str());
+                    }
+                }
+                if srvs.len() != 1 {
+                    return None;
+                }
+                (0..n).for_each(|t| use_t[t] = use_t[t] + vals[t]);
+                match use_srv.iter_mut().find(|x| x.0 == srvs[0]) {
+                    Some(x) => (0..n).for_each(|t| x.1[t] = x.1[t] + vals[t]),
+                    None => use_srv.push((srvs[0].to_string(), vals.clone())),
                 }
             }
             ('P', ps, _) => {
@@ -326,6 +347,7 @@ pub fn scenario(u: &Unit) -> String {
     for l in &e.lines {
         let c = match l.kind {
             'U' => l.b.clone(),
+            'X' => "ELECTRICIDAD".to_string(),
             'P' => match l.a.as_str() {
                 "EL_INSITU" | "EL_COGEN" => "ELECTRICIDAD".to_string(),
                 x => x.to_string(),
@@ -399,6 +421,8 @@ pub fn scenario(u: &Unit) -> String {
         tot_a = tot_a.add(r.a);
         tot_b = tot_b.add(r.b);
     }
+    // every carrier with a balance is one the building declares
+    ob("balance_cr.carriers", if ep.balance_cr.len() == order.len() { t() } else { f() });
     // whole building, per m2 and RER
     cmp_r("bal.we.a", &ep.balance.we.a, &tot_a, mag);
     cmp_r("bal.we.b", &ep.balance.we.b, &tot_b, mag);
